@@ -874,7 +874,9 @@ async def run_scenario(scn: dict, home: Path) -> dict:
                         i_ = [int(jt["cycle"]), jt["task"]]
                         world.msgs.append((tick + 1, jt, m.message, i_, int(jt["job"]),
                                            world.sent.get((tuple(i_), int(jt["job"]), m.message), 0)))
-                        world.first_tick.pop((tuple(i_), int(jt["job"]), m.message), None)   # never processed
+                        if world.first_tick.get((tuple(i_), int(jt["job"]), m.message), -1) >= tick - 1:
+                            # never processed (a duplicate of a message processed in an earlier iteration stays a duplicate)
+                            world.first_tick.pop((tuple(i_), int(jt["job"]), m.message), None)
                         ev("undelivered", id=i_, message=m.message)
                 except Exception:   # queue.Empty
                     pass
@@ -898,7 +900,9 @@ async def run_scenario(scn: dict, home: Path) -> dict:
                         i_ = [int(jt["cycle"]), jt["task"]]
                         world.msgs.append((tick + 1, jt, m.message, i_, int(jt["job"]),
                                            world.sent.get((tuple(i_), int(jt["job"]), m.message), 0)))
-                        world.first_tick.pop((tuple(i_), int(jt["job"]), m.message), None)   # never processed
+                        if world.first_tick.get((tuple(i_), int(jt["job"]), m.message), -1) >= tick - 1:
+                            # never processed (a duplicate of a message processed in an earlier iteration stays a duplicate)
+                            world.first_tick.pop((tuple(i_), int(jt["job"]), m.message), None)
                         ev("undelivered", id=[int(jt["cycle"]), jt["task"]], message=m.message)
                 except Exception:   # queue.Empty
                     pass
